@@ -22,8 +22,11 @@ RULES = {
     "raise between the first mutation and the protecting try, the finally restores every mutated field, ordered "
     "containers are restored wholesale",
     "R5": "passes declaring changes_input = False write model state only through the R4 protocol",
+    "R6": "history-free pass objects (shared with C05-R5): per-run state kept on a pass object is re-initialised "
+    "unconditionally before its first use in call()/requires(), so a reused pass object (Sequential, PassManager) does to a "
+    "model exactly what a fresh one does",
 }
-FLOORS = {"R1": 18, "R2": 40, "R3": 10, "R4": 4, "R5": 1}
+FLOORS = {"R1": 18, "R2": 40, "R3": 10, "R4": 4, "R5": 1, "R6": 8}
 EXPLANATION = (
     "For every pass class found under onnx_ir.passes: CFG queries over `call` and every helper it reaches that "
     "writes model state (effect summaries with root tags), relating each write to the flag variables that reach "
@@ -630,3 +633,6 @@ def run(ctx):
     rule_r3(ctx, passes, ef)
     rule_r4(ctx, ef)
     rule_r5(ctx, passes, ef)
+    from . import c05
+
+    c05.rule_r5(ctx, rule="R6")
